@@ -357,6 +357,7 @@ class Hub:
         self.served_merkle = {}                     # txid -> last merkle dict served
         self.served_raw = {}                        # txid -> last raw bytes served
         self.alias = {}                             # id of altered bytes -> txid of the genuine transaction
+        self.reorgs = []                            # (first replaced height, blocks replaced, new branch length)
         self.stats = {}
 
     # ---- wallet address registry ---------------------------------------------------------------------
@@ -479,6 +480,64 @@ class Hub:
         self.mempool = [t for t in self.mempool if t not in mined]
         self.blocks.append(blk)
         return blk
+
+    def reorg(self, rng, k, new_len, n_fill=(0, 3)):
+        """Replace the last `k` blocks by `new_len` (>= k) blocks with different transaction lists.
+
+        Coinbases of the replaced blocks vanish.  Every other transaction of them gets a seeded fate: stay at
+        its height (other position), move to another height of the new branch, or leave the chain -- wallet
+        related ones drop back to the mempool, foreign fillers vanish.  A child never ends up below its parent.
+        -> (first replaced height, {txid: (old height, new height or None)})"""
+        k = max(1, min(int(k), len(self.blocks) - 1))
+        new_len = max(k, int(new_len))
+        old = self.blocks[-k:]
+        del self.blocks[-k:]
+        base = len(self.blocks)
+        displaced = []
+        for blk in old:
+            for pos, txid in enumerate(blk.txids):
+                tx = self.txs[txid]
+                if pos == 0:
+                    del self.txs[txid]                  # coinbase of an abandoned block
+                else:
+                    displaced.append((tx, blk.height))
+        displaced.sort(key=lambda e: e[0].seq)
+        slot = {}                                       # txid -> index in the new branch, or None (leaves the chain)
+        moves = {}
+        for tx, old_h in displaced:
+            x = rng.random()
+            if x < 0.4:
+                idx = min(old_h - base, new_len - 1)
+            elif x < 0.75:
+                idx = rng.randrange(new_len)
+            else:
+                idx = None
+            for i in tx.ins:
+                if i.prev_txid in slot:
+                    pidx = slot[i.prev_txid]
+                    if pidx is None:
+                        idx = None
+                    elif idx is not None and idx < pidx:
+                        idx = pidx
+                else:
+                    p = self.txs.get(i.prev_txid)
+                    if p is not None and p.height is None and i.prev_txid not in slot:
+                        idx = None                      # parent sits in the mempool
+            slot[tx.txid] = idx
+            tx.height = tx.pos = None
+            moves[tx.txid] = (old_h, None if idx is None else base + idx)
+        back = [tx for tx, _ in displaced if slot[tx.txid] is None]
+        for tx in back:
+            if tx.wallet_related:
+                self.mempool.append(tx.txid)
+            else:
+                del self.txs[tx.txid]
+        self.mempool.sort(key=lambda t: self.txs[t].seq)
+        for i in range(new_len):
+            members = [tx.txid for tx, _ in displaced if slot[tx.txid] == i]
+            self.mine(rng, members, rng.randint(*n_fill))
+        self.reorgs.append((base, k, new_len))
+        return base, moves
 
     def mine_synthetic(self, rng, count):
         """`count` linked blocks without transaction lists (Merkle root = hash of a label): cheap filler for
